@@ -350,13 +350,62 @@ func v14hScan(ctx context.Context, zctx *zed.Context, pool *lake.Pool, objects [
 	return got, true
 }
 
-func v14hPartitionScanOrder(n, kmax int) {
-	verif.Goroutines(true)
+// v14hConcObject is v14hSymObject with concrete keys (schedule variant): keys
+// lists the object's keys in ascending order (0 = null key, -1 = key field
+// missing, last); a descending pool gets them reversed, as the loader writes them.
+func v14hConcObject(zctx *zed.Context, keys []int, base byte, desc bool) ([]v14hVal, []zed.Value) {
+	n := len(keys)
+	spec := make([]v14hVal, n)
+	vals := make([]zed.Value, n)
+	for i := 0; i < n; i++ {
+		k, tag := keys[i], base+byte(i)
+		if desc {
+			k, tag = keys[n-1-i], base+byte(n-1-i)
+		}
+		switch {
+		case k == 0:
+			spec[i] = v14hVal{null: true, tag: tag}
+			vals[i] = v14hRec(zctx, v14hNull, 0, tag)
+		case k < 0:
+			spec[i] = v14hVal{null: true, tag: tag}
+			vals[i] = v14hRec(zctx, v14hMissing, 0, tag)
+		default:
+			spec[i] = v14hVal{k: int64(k), tag: tag}
+			vals[i] = v14hRec(zctx, v14hInt, byte(2*k), tag)
+		}
+	}
+	return spec, vals
+}
+
+// v14hSchedKeys: the concrete objects {A, B} of the schedule variant
+var v14hSchedKeys = [][2][]int{
+	{{1, 3, -1}, {2, 3, 4}}, // ranges interleave, a tie, a record without the key field
+	{{2, 2, 0}, {2, 4, 0}},  // ties inside and across the objects, a null key in both
+}
+
+func v14hPartitionScanOrder(n, kmax int) { v14hPartitionScan(n, kmax, 0) }
+
+func v14hPartitionScan(n, kmax, sched int) {
+	pat := 0
+	if sched > 0 {
+		// schedules are the quantifier: concrete objects
+		verif.Schedules(sched)
+		pat = verif.Choose("data", len(v14hSchedKeys))
+	} else {
+		verif.Goroutines(true)
+	}
 	ctx := context.Background()
 	zctx := zed.NewContext()
 	desc := verif.Choose("desc", 2) == 1
-	specA, valsA := v14hSymObject(zctx, "A", n, kmax, 0x10, desc)
-	specB, valsB := v14hSymObject(zctx, "B", n, kmax, 0x20, desc)
+	var specA, specB []v14hVal
+	var valsA, valsB []zed.Value
+	if sched > 0 {
+		specA, valsA = v14hConcObject(zctx, v14hSchedKeys[pat][0][:n], 0x10, desc)
+		specB, valsB = v14hConcObject(zctx, v14hSchedKeys[pat][1][:n], 0x20, desc)
+	} else {
+		specA, valsA = v14hSymObject(zctx, "A", n, kmax, 0x10, desc)
+		specB, valsB = v14hSymObject(zctx, "B", n, kmax, 0x20, desc)
+	}
 
 	eng, pool, sortKey, ok := v14hSetup(ctx, desc)
 	if !ok {
@@ -425,6 +474,30 @@ func v14hPartitionScanOrder(n, kmax int) {
 		verif.Assert(p == len(spec), "object-order-preserved")
 	}
 
+	if sched > 0 {
+		// the merged output is THE sequence the values determine (pool-key
+		// order, ties by the value bytes i.e. the tags, in the pool's
+		// direction), whatever the schedule of the scan's goroutines
+		want := append([]v14hVal{}, all...)
+		for i := 1; i < len(want); i++ {
+			for j := i; j > 0; j-- {
+				a, b := want[j-1], want[j]
+				tie := a.null == b.null && (a.null || a.k == b.k)
+				inOrder := v14hBefore(a, b, desc)
+				if tie {
+					inOrder = a.tag < b.tag != desc
+				}
+				if inOrder {
+					break
+				}
+				want[j-1], want[j] = b, a
+			}
+		}
+		for i := range got {
+			verif.Assert(got[i].tag == want[i].tag, "merged-stream-is-the-sequence-the-values-determine")
+		}
+	}
+
 	// ties: the merged order is a function of the values, not of the order in
 	// which the partition lists its objects
 	got2, ok := v14hScan(ctx, zctx, pool, []*data.Object{objB, objA}, 2*n)
@@ -477,6 +550,17 @@ func v14hPartitionScanOrder(n, kmax int) {
 // verif:bounds 2 objects of 3 values each; per object at most one value with a null key or without the key field (Choose: none/null/missing), placed where the loader puts it; the other keys symbolic int64 in 1..4 (one-byte ZNG bodies) in pool order, so key ranges overlap, nest, are disjoint or tie; concrete distinct tags; pool order asc and desc; seek stride and threshold default; no pruner, no filter
 // verif:outside ONE goroutine schedule (cooperative: a goroutine runs until it blocks, then the first runnable in FIFO order; select takes the first ready case) - other interleavings of the merge pullers are not explored; the engine runs the zngio scanner single-threaded (GOMAXPROCS=1), the native replay with real threads; LZ4 CompressBlock is the incompressible stub in the engine; pool/branch journal metadata through marshal tokens; pruned scans (seek ranges), filters, more than two objects, non-integer keys, storage failures; SequenceScanner.Pull/newScanner (the marshaled Partition value is a token in the engine)
 func VerifH_C14_O11_partition_scan_order() { v14hPartitionScanOrder(3, 4) }
+
+// verif:desc C08-O6s the parallel scan of a partition's overlapping objects is independent of the goroutine schedule: same run and same assertions as VerifH_C14_O11_partition_scan_order (two objects written by the real data.Writer, scanned by the real meta.newObjectsScanner = one zngio scanner + statScanner per object under merge.New with lake.ImportComparator, pulled to end of stream, then once more with the object list reversed), under EVERY schedule with at most 1 preemption (thorough tier: 2) at the channel operations, selects, closes, atomics, map accesses, lock/once/WaitGroup operations and goroutine starts of the real merge pullers, zngio scanner/parser/worker goroutines and the consumer, with a bounded free choice of which runnable goroutine continues; in addition the merged stream is exactly THE sequence the values determine (pool-key order, null/missing largest, ties by value bytes in the pool's direction): every value once, intact, same order under every schedule and for both object list orders, every object reader closed at end of stream
+// verif:bounds 2 objects of 3 values (thorough tier: 2 values, the first two of each) with concrete keys: A=1,3,(no key field) B=2,3,4, or A=2,2,null B=2,4,null (Choose); pool order asc and desc; no pruner, no filter; preemption bound 1 (thorough: 2)
+// verif:outside as VerifH_C14_O11_partition_scan_order except that schedules are explored up to the bound; symbolic keys (VerifH_C14_O11_partition_scan_order); field/slice loads and stores are not preemption points (data-race freedom between sync points is assumed, not checked); sync.Pool is a per-path LIFO shared by all goroutines; the engine's zngio scanner has one worker per scanner
+func VerifH_C08_O6s_partition_scan_schedules() {
+	if verif.Thorough() {
+		v14hPartitionScan(2, 4, 2)
+	} else {
+		v14hPartitionScan(3, 4, 1)
+	}
+}
 
 // verif:desc C14-O11s a partition of ONE data object (no merge): the real newObjectsScanner returns exactly the object's values, intact, in the order the real data.Writer wrote them, for asc and desc pools, and closes the object reader.
 // verif:bounds 1 object of 3 values, at most one null/missing key, other keys symbolic int64 in 1..4 in pool order; asc and desc
